@@ -557,4 +557,23 @@ example : predict ([1, 2] : List Int) 10 [9, 12, 14] 2 = some [20, 34] := by dec
 
 end forecast
 
+/-! ## fit and forecast together -/
+
+section together
+variable {α : Type} [Field α] [LinearOrder α] [IsStrictOrderedRing α] [BEq α] [Transc α] [Inhabited α]
+
+/-- **forecast_shift.**  Fitting the model to `series + c` and forecasting from it gives the forecasts of the model
+fitted to `series`, each moved by exactly `c` (same panics), for every order, horizon and non-empty series. -/
+theorem forecast_shift (p h : Nat) (data : List α) (c : α) (hd : data ≠ []) :
+    ((arFit p (data.map (· + c))).bind fun r => predict r.2 r.1 (data.map (· + c)) h) =
+      ((arFit p data).bind fun r => predict r.2 r.1 data h).map (·.map (· + c)) := by
+  rw [fit_shift p data c hd]
+  cases arFit p data with
+  | none => rfl
+  | some r =>
+    simp only [Option.map_some, Option.bind_some]
+    exact predict_shift r.2 r.1 c data h
+
+end together
+
 end Cv.C13
